@@ -97,6 +97,32 @@ func raceMain(args []string) {
 	}
 	bad := 0
 	var mu sync.Mutex
+	// phase 1: every expression in turn is hammered by all goroutines at once (races on the
+	// state of ONE compiled expression need simultaneous use of that expression)
+	for j := range compiled {
+		var wg sync.WaitGroup
+		for gi := 0; gi < k; gi++ {
+			wg.Add(1)
+			go func(gi int) {
+				defer wg.Done()
+				for rep := 0; rep < rounds; rep++ {
+					got := obsAll(compiled[j], root, all)
+					for ci := range got {
+						if got[ci] != want[j][ci] {
+							mu.Lock()
+							bad++
+							if bad < 20 {
+								fmt.Printf("MISMATCH\t%s\tctx=%s\tgot=%s\twant=%s\n", doc.Esc(texts[j]), all[ci].Addr(), got[ci], want[j][ci])
+							}
+							mu.Unlock()
+						}
+					}
+				}
+			}(gi)
+		}
+		wg.Wait()
+	}
+	// phase 2: different expressions at the same time, with concurrent Compile calls
 	var wg sync.WaitGroup
 	for gi := 0; gi < k; gi++ {
 		wg.Add(1)
@@ -129,7 +155,7 @@ func raceMain(args []string) {
 		}(gi)
 	}
 	wg.Wait()
-	fmt.Printf("RACE-RUN\texprs=%d\tgoroutines=%d\trounds=%d\tevaluations=%d\tmismatches=%d\n", len(compiled), k, rounds, len(compiled)*k*rounds*len(all)*2, bad)
+	fmt.Printf("RACE-RUN\texprs=%d\tgoroutines=%d\trounds=%d\tevaluations=%d\tmismatches=%d\n", len(compiled), k, rounds, 2*len(compiled)*k*rounds*len(all)*2, bad)
 	if bad > 0 {
 		os.Exit(1)
 	}
